@@ -29,10 +29,19 @@ def expected_pairs(ctx, tr, lab, before_seq=None):
 
 # ------------------------------------------------------------------ C01
 def eval_c01(ctx, tr, finished):
+    # events below an event one of whose handlers was cancelled by its time-out: their not-yet-started handlers are
+    # cancelled rather than run (C10); everything else must still be delivered exactly once
+    excused = set()
+    for h, x in tr.X.items():
+        if x.outcome == 'cancelled':
+            excused.update(tr.desc(tr.Eh[h].ev))
     for (bus, lab) in _uniq(tr.accepted()):
         for name in ctx.expected(bus, lab):
             n = tr.count(bus, lab, name)
-            ctx.check('C01.once', n == 1, bus=bus, ev=lab, handler=name, n=n)
+            if lab in excused:
+                ctx.check('C01.once', n <= 1, bus=bus, ev=lab, handler=name, n=n)
+            else:
+                ctx.check('C01.once', n == 1, bus=bus, ev=lab, handler=name, n=n)
     acc = set(tr.accepted())
     for r in tr.E:
         ok = r.name in ctx.expected(r.bus, r.ev) and (r.bus, r.ev) in acc
